@@ -58,8 +58,12 @@ func runC22c(schedSeed uint64, nfiles int, programs [][]wact, lockstep bool, sc 
 	n := &noise{r: NewRand(schedSeed, 2222)}
 	c := cfg29{AttrTTL: 5 * time.Second, NegTTL: 5 * time.Second, DirTTL: 5 * time.Second}
 	e := newEnv(c, n, sc, nil)
-	defer e.NFS.Close()
 	res := &c22res{n: n}
+	defer func() {
+		if !res.deadlock {
+			e.NFS.Close()
+		}
+	}()
 	var syncs sync.Mutex
 	e.FS.SyncSnapshot = true
 	e.FS.MidSync = func(p string) {
@@ -114,7 +118,9 @@ func runC22c(schedSeed uint64, nfiles int, programs [][]wact, lockstep bool, sc 
 		select {
 		case <-done:
 			return true
-		case <-time.After(watchdog):
+		case <-time.After(watchdogFor(sc)):
+			rc.dead.Store(true)
+			deadlocksSeen.Add(1)
 			return false
 		}
 	}
@@ -168,6 +174,19 @@ func runC22c(schedSeed uint64, nfiles int, programs [][]wact, lockstep bool, sc 
 
 func (res *c22res) toCase(kind string, idx int, tags map[string]int) Case {
 	rc := res.rc
+	rc.mu.Lock()
+	opsCopy := make([]*opRec, len(rc.ops))
+	for i, op := range rc.ops {
+		cp := *op
+		opsCopy[i] = &cp
+	}
+	h2p := map[uint64]string{}
+	for k, v := range rc.h2p {
+		h2p[k] = v
+	}
+	rc.mu.Unlock()
+	rc = &runCtx{ops: opsCopy, h2p: h2p}
+	rc.panics.Store(res.rc.panics.Load())
 	sort.SliceStable(rc.ops, func(i, j int) bool { return rc.ops[i].inv < rc.ops[j].inv })
 	var ops, txt []string
 	for i, op := range rc.ops {
@@ -270,6 +289,10 @@ func (res *c22res) toCase(kind string, idx int, tags map[string]int) Case {
 // genC22c: 2-3 clients x 2-5 requests on 1-2 files; every written byte identifies its writer and request
 // (client k, request j writes the letter 'A' + 5k + j, or its lower case), so the durable contents can be read.
 func genC22c(r0 *Rand, idx int, tier string) Case {
+	if why := skipCase(tier); why != "" {
+		return Case{Index: idx, Kind: why, Tags: map[string]int{"skipped": 1}, Key: fmt.Sprintf("%s %d", why, idx), Text: why,
+			Coq: "{| q_ops := []; q_dumps := []; q_deadlock := false; q_panic := false; q_race := false |}"}
+	}
 	hist := uint64(idx / schedulesPerHistory)
 	r := NewRand(globalSeed()^0xC22C, hist)
 	k := 2 + r.Intn(2)
